@@ -209,6 +209,8 @@ def trace_set(th, tier, seed):
             n, steps = cfg["n"], cfg["steps"]
             if fam == "rewards":
                 n, steps = n + 4, steps + 40
+            if fam in ("takerate", "genesis"):
+                n = n + 3
             run_harness(binp, out, ["-mode", "random", "-family", fam, "-seed", str(seed), "-shard", str(sh), "-n", str(n), "-steps", str(steps)])
             tf = os.path.join(out, "%s-%d-%d.ndjson" % (fam, seed, sh))
             res = run_tlc(sd, tf)
